@@ -33,6 +33,13 @@ fn main() {
                 tier = args.get(i + 1).cloned().unwrap_or_else(|| usage());
                 i += 2;
             }
+            "--shape" => {
+                // child mode of the C15 scaled-shape test
+                let shape = args.get(i + 1).cloned().unwrap_or_else(|| usage());
+                let n: usize = args.get(i + 3).and_then(|s| s.parse().ok()).unwrap_or_else(|| usage());
+                drive::silence_panics();
+                std::process::exit(props::c15::shape_child(&shape, n));
+            }
             "--replay" => {
                 replay = Some(args.get(i + 1).cloned().unwrap_or_else(|| usage()));
                 i += 2;
